@@ -3,6 +3,7 @@ import os
 
 from vf import common, trace
 from checks import rtbuf_common as rb
+from checks import rtmeta_lib
 
 LEVEL = "proof"
 
@@ -53,7 +54,9 @@ def run(chk):
         "hand model coq/Rt/RtBufDefs.v (repaired add_flush_events = patches/fix-c02-flush-markers.diff) tied by byte-for-byte comparison of stream.obs with the extracted model on generated conformant programs",
         "harness/rtbuf_drv.c (clock_gettime interposed; one forked child per program) and the OVNI_VERIF_EVBUF hook",
         "extraction (ExtrOcamlBasic only) + OCaml 4.13 + oracle/rtbuf_drv.ml",
-        "metadata completeness and emulator acceptance are NOT theorems (parson and the emulator are outside this model): they are checked by execution on every generated trace (stream.json keys; exit status of the real ovniemu -l)",
+        "hand model coq/Rt/RtMetaDefs.v of the runtime's metadata handling (parson's object API on dotted names + the stream.json state machine of src/rt/ovni.c), tied by comparing the tree of every stream.json after EVERY call (member order included), every returned attribute value and die() vs SIGABRT with the extracted model on generated metadata programs (harness/rtmeta_drv.c, oracle/rtmeta_drv.ml, lib/checks/rtmeta_lib.py)",
+        "parson's serialise-then-parse round trip (json_serialize_to_file_pretty / json_parse_file_with_comments) is trusted in C02_metadata_complete (m_parses = true); the tie reads the real text with Python's json",
+        "per-loom completeness of ovni.loom_cpus, rank/nranks and the acceptance by the real emulator are NOT theorems: an independent Python decider judges the real final stream.json files and the real ovniemu -l runs on every generated protocol-following trace",
     ]
     chk.assumptions = ["a conformant program takes every event clock with ovni_clock_now() from a non-decreasing clock and emits no OF* events itself",
                        "one thread per stream; process init/fini as in the driver (C11 covers concurrency)"]
@@ -155,6 +158,14 @@ def run(chk):
 
     rb.run_all(ctx, small, judge, chunk=32, prejudge=prejudge, coq_valid=True)
     rb.run_all(ctx, big, judge, chunk=2, workers=12, prejudge=prejudge, coq_valid=True)
+
+    # family rtmeta: the metadata side (stream.json) of the runtime against the model of coq/Rt/RtMetaDefs.v
+    try:
+        rtmeta_lib.run_family(chk, build, ctx.art, os.path.dirname(ctx.art.tool("ovniemu")))
+    except Exception as e:  # noqa
+        chk.notes.append("rtmeta family could not run: %r" % (e,))
+        if not getattr(chk, "proof_broken", None):
+            chk.proof_broken = {"kind": "correspondence-harness", "error": repr(e)[:500]}
 
     if small:
         s = small[len(small) // 3]
